@@ -549,6 +549,11 @@ def install(lib, np_):
     cx.may_raise('LinAlgError', None, 'singular matrix')
     return cx.new(TH.inv(s.term) if s.term is not None else None, s.shape.dims, 'f')
 
+  @ext('numpy.linalg.det', 'ASSUMED: the determinant as a real number (overflow / underflow of the binary64 product is not modelled)')
+  def _det(cx, a, **kw):
+    st_of(cx, a)
+    return VReal(fresh('det', z3.RealSort()))
+
   @ext('numpy.linalg.slogdet')
   def _slogdet(cx, a, **kw):
     s = st_of(cx, a)
